@@ -86,13 +86,43 @@ Definition globals_agree (a b : list (str * tree)) : bool := globals_sub a b && 
 Definition log_eqb : list (str * list tree) -> list (str * list tree) -> bool :=
   list_eqb (pair_eqb (list_eqb N.eqb) (list_eqb tree_eqb)).
 
+
 Definition check_fuel : nat := N.to_nat 6000.
+
+(* known class 15 (N-C01-1, found while proving C01_compile_correct_f10): the value of a call card in STATEMENT
+   position is never popped; inside a loop body one value-stack slot is lost per round, so a loop of more rounds
+   than the stack has slots ends in Stackoverflow although the program's live data is a handful of values.  The
+   class: the run ended in Stackoverflow (resource 2), the reference semantics (which has no stack bound) ends
+   normally, and some loop body of the module contains a call card in statement position. *)
+Fixpoint leaks_in_loop (inl : bool) (c : card) : bool :=
+  match c with
+  | CCall _ _ | CDynamicCall _ _ | CCallNative _ _ => inl
+  | CBin BWhile _ b => leaks_in_loop true b
+  | CBin BIfTrue _ b | CBin BIfFalse _ b => leaks_in_loop inl b
+  | CTri TIfElse _ a b => leaks_in_loop inl a || leaks_in_loop inl b
+  | CRepeat _ _ b => leaks_in_loop true b
+  | CForEach _ _ _ _ b => leaks_in_loop true b
+  | CComposite _ cs => existsb (leaks_in_loop inl) cs
+  | _ => false
+  end.
+Fixpoint module_leaks (m : module) : bool :=
+  match m with
+  | Module subs funs _ =>
+      existsb (fun nf => existsb (leaks_in_loop false) (f_cards (snd nf))) funs ||
+      (fix go (l : list (str * module)) : bool :=
+         match l with [] => false | (_, sub) :: r => module_leaks sub || go r end) subs
+  end.
 
 Definition check1 (c : c01case) : list N :=
   match c with
   | ProgCase m host o =>
       if negb (well_scoped m) then [3] else
       match o with
+      | ObsResource 2 =>
+          match eval_program check_fuel m host with
+          | PObs o' => if okind_eqb KOk (ob_kind o') && module_leaks m then [15] else []
+          | _ => []
+          end
       | ObsResource _ => []
       | ObsCompileError => [3]
       | ObsPanic => [2]
